@@ -1,7 +1,7 @@
 (* Agreement of the per-game configuration of LayeredFilesystem::new and of the compressed-file suffixes
    (src/layered_filesystem.rs, src/lz10.rs, src/lz13.rs; regenerated from the source on every run) with
    Model/LayeredFS.v. *)
-From Coq Require Import List NArith ZArith Bool String.
+From Coq Require Import String List NArith ZArith Bool.
 From Mila Require Import Generated.SourceTables.
 From Mila Require Import Proofs.SrcAgreeLib Lib.Bytes Lib.Machine Model.Localize Model.LayeredFS.
 Import ListNotations.
